@@ -231,10 +231,10 @@ func buildVersioned(env *Env, version string) (string, error) {
 }
 
 func suiteSelfUpdate(env *Env, res *Result) {
-	res.Rule = "release catalogues served by a local TLS-intercepting stand-in for api.github.com / github.com (0..4 releases with versions below/equal/above the running one, v-prefixed and plain tags, build metadata, pre-releases, drafts, non-semver tags; asset for this platform as raw binary or tar.gz, corrupt archive, failing download, other platforms only; checksum file matching / mismatching / other file only / missing / failing download; failing release listing) x the unmodified binary built from /repo with four running versions (development default, v2.5.0, 9.9.9, pre-release v2.6.0-rc.1); observed: sha256 of the executable copy before and after `self-update`, exit status, requests made; compared with the property directly and with Model/SelfUpdate.v; non-trivial = a release for this platform exists"
+	res.Rule = "release catalogues served by a local TLS-intercepting stand-in for api.github.com / github.com (0..4 releases with versions below/equal/above the running one, v-prefixed and plain tags, build metadata, pre-releases, drafts, non-semver tags; asset for this platform as raw binary or tar.gz, corrupt archive, failing download, other platforms only; checksum file matching / mismatching / other file only / missing / failing download; failing release listing) x the unmodified binary built from /repo with five running versions (development default, v2.5.0, 9.9.9, pre-releases v2.6.0-rc.1 and v99.0.0-rc.1); observed: sha256 of the executable copy before and after `self-update`, exit status, requests made; compared with the property directly and with Model/SelfUpdate.v; non-trivial = a release for this platform exists"
 	r := NewRng(env.Seed + 2000)
 	n := env.N(40, 1500)
-	versions := []string{"", "v2.5.0", "9.9.9", "v2.6.0-rc.1"}
+	versions := []string{"", "v2.5.0", "9.9.9", "v2.6.0-rc.1", "v99.0.0-rc.1"}
 	bins := map[string]string{"": env.Bin}
 	for _, v := range versions[1:] {
 		b, err := buildVersioned(env, v)
